@@ -1034,6 +1034,10 @@ namespace std {
     static constexpr symv::Sym min() { return symv::dlit(2.2250738585072014e-308); }
     static constexpr symv::Sym max() { return symv::dlit(1.7976931348623157e+308); }
     static constexpr symv::Sym lowest() { return symv::dlit(-1.7976931348623157e+308); }
+    // only to let code that initialises members with these values instantiate (has_quiet_NaN / has_infinity stay false)
+    static constexpr symv::Sym quiet_NaN() { return symv::dlit(__builtin_nan("")); }
+    static constexpr symv::Sym signaling_NaN() { return symv::dlit(__builtin_nan("")); }
+    static constexpr symv::Sym infinity() { return symv::dlit(__builtin_inf()); }
   };
   using symv::abs;
   using symv::acos;
